@@ -309,6 +309,15 @@ pub fn gen(tier: &str, rng: &mut Rng, out: &mut Vec<String>) {
         out.push(format!("c04.cmpct {} 0 {}", prof, many));
         out.push(format!("c04.cmpct {} 1 {}", prof, many));
     }
+    // signed spends through the same entry point (the generator of c03.txv, decided end to end by the reference interpreter +
+    // transaction checker + sighash + secp256k1 of the driver): both FORKID-requirement modes with real signatures, incl. locks that
+    // tolerate a signature check answering false
+    {
+        let mut t = Vec::new();
+        crate::c03::txv::gen("quick", &mut rng.fork(), &mut t);
+        let keep = if thorough { t.len() } else { 900 };
+        out.extend(t.into_iter().take(keep));
+    }
     let n_pl = if thorough { 60_000 } else { 3_000 };
     for i in 0..n_pl {
         let txs = payload_txs(rng);
